@@ -88,6 +88,10 @@ def gen_spec(rng, fmt):
     else:
         spec['kind'] = fmt
         spec['lstagger'] = rng.choice([0, 1])
+        if fmt == 'cloud_rain':
+            # the 20-character header text is often shorter and blank-padded
+            spec['cldhdr'] = rng.choice(['CAMx_V4.3 CLOUD_RAIN', 'CAMx CLOUD', 'CLOUD RAIN v5  x',
+                                         'CAMx_V4.3 CLOUD_RAIN'])
     return spec
 
 
@@ -845,6 +849,43 @@ def apply(st, op):
             _raise(st, 'C09', 'reference-file-read-differently',
                    '%s file (%s): %s' % (fmt, _desc(spec), '; '.join(x[1] for x in d[:3])),
                    {'format': fmt, 'field': d[0][0], 'dir': 'ref-encoder->lib-reader'})
+        # what the library read from the reference file, written again by the library
+        # writer, must conform to the layout and decode to the same content
+        if op.get('rewrite_stub', True):
+            p4 = p3 + '.rw'
+            try:
+                h4 = library_write(g, p4, fmt, spec)
+                try:
+                    h4.close()
+                except BaseException:
+                    pass
+                with open(p4, 'rb') as fh:
+                    b4 = fh.read()
+            except BaseException as e:
+                _raise(st, 'C08', 'rewrite-raised',
+                       're-writing the library\'s reading of a reference-encoded %s file (%s) '
+                       'raised %s: %s' % (fmt, _desc(spec), type(e).__name__, e),
+                       {'format': fmt, 'error': type(e).__name__,
+                        'one_cell_grid': spec['nx'] * spec['ny'] == 1})
+                b4 = None
+            if b4 is not None:
+                st.stats['stub_rewrites'] = st.stats.get('stub_rewrites', 0) + 1
+                try:
+                    ref = canon_from_reference(b4, fmt, spec)
+                    d = compare(truth, ref, 'reference decoder on the re-written reference file')
+                    if d:
+                        _raise(st, 'C09', 'written-file-decodes-differently',
+                               '%s file (%s): %s' % (fmt, _desc(spec),
+                                                     '; '.join(x[1] for x in d[:3])),
+                               {'format': fmt, 'field': d[0][0],
+                                'dir': 'ref-encoder->lib-reader->lib-writer->ref-decoder'})
+                except (RecordError, ValueError, IndexError, KeyError) as e:
+                    if isinstance(e, Violation):
+                        raise
+                    _raise(st, 'C09', 'written-file-violates-layout',
+                           '%s file (%s), re-written reference file of %d bytes: %s: %s' % (
+                               fmt, _desc(spec), len(b4), type(e).__name__, e),
+                           {'format': fmt, 'error': type(e).__name__})
         # the library writer's bytes and the reference encoder's bytes: a probe
         with open(wr['ack'], 'rb') as fh:
             if fh.read() == buf:
